@@ -322,7 +322,16 @@ def run_case(case, rec):
             if not invariant(g2, type(g2), names, types,
                              '%s (%s)' % (label, tname), rec, case):
                 return
+            # what the same trip does to the VALUES themselves is Python's
+            # business (pickle protocol 0 rebuilds a str subclass from
+            # str(obj), drops NaN payload bits ...): the frame's copy has to
+            # hold what a copy of its values holds
             want = [(n, getattr(src, n, boundary.Missing)) for n in names]
+            tw = call(fn, want)
+            if not tw.ok:
+                rec.count('trip_unavailable_for_values:' + tname)
+                continue
+            want = tw.value
             have = [(n, getattr(g2, n, boundary.Missing)) for n in names]
             if canon.text(want) != canon.text(have):
                 rec.violation('copy-changes-values', '%s of a %s holds %s, '
